@@ -45,6 +45,17 @@ ANCHORS = [
     ("src/easynetwork/serializers/abc.py", "AbstractIncrementalPacketSerializer.deserialize"),
     ("src/easynetwork/serializers/line.py", "StringLineSerializer.serialize"),
     ("src/easynetwork/serializers/line.py", "StringLineSerializer.deserialize"),
+    ("src/easynetwork/serializers/json.py", "JSONSerializer.serialize"),
+    ("src/easynetwork/serializers/json.py", "JSONSerializer.deserialize"),
+    ("src/easynetwork/serializers/wrapper/base64.py", "Base64EncoderSerializer.serialize"),
+    ("src/easynetwork/serializers/wrapper/base64.py", "Base64EncoderSerializer.deserialize"),
+    ("src/easynetwork/serializers/wrapper/compressor.py", "AbstractCompressorSerializer.serialize"),
+    ("src/easynetwork/serializers/wrapper/compressor.py", "AbstractCompressorSerializer.deserialize"),
+    ("src/easynetwork/serializers/struct.py", "AbstractStructSerializer.serialize"),
+    ("src/easynetwork/serializers/struct.py", "AbstractStructSerializer.deserialize"),
+    ("src/easynetwork/serializers/struct.py", "NamedTupleStructSerializer.from_tuple"),
+    ("src/easynetwork/serializers/struct.py", "NamedTupleStructSerializer.iter_values"),
+    ("src/easynetwork/serializers/pickle.py", "PickleSerializer.deserialize"),
     ("src/easynetwork/serializers/base_stream.py", "FileBasedPacketSerializer.serialize"),
     ("src/easynetwork/serializers/base_stream.py", "FileBasedPacketSerializer.deserialize"),
     ("src/easynetwork/lowlevel/constants.py", "MAX_DATAGRAM_BUFSIZE"),
@@ -89,7 +100,11 @@ RULE = ("a case = up to 6 datagrams sent by the peer (valid serializations of ge
         "format on FileBasedPacketSerializer with the inherited serialize(); send_packet of packets whose serialization "
         "raises (after a partial write for the file-based one) followed by good ones; the blocking transport with a small "
         "explicit recv size; UDPNetworkClient over AF_INET6 loopback with datagrams of 65507/65508/65520/65527 bytes (recv "
-        "size regenerated from lowlevel/constants.py). Non-trivial = a malformed datagram is followed by a valid one, two items are queued before a receive, a "
+        "size regenerated from lowlevel/constants.py); NamedTupleStructSerializer with one '<n>s' field white box (every value "
+        "over {a, NUL}, every field over {a, b, NUL}, wrong sizes); every valid datagram carries the packet it serializes and "
+        "the model answers THAT packet (round trip through every shipped codec, incl. empty payloads under base64 with and "
+        "without checksum, zlib, bz2); the JSON decoder-limit inputs (20000 '[' / 20000 digits) with debug off/on, bare and "
+        "under zlib / base64; a RuntimeError of the receive path is never accepted. Non-trivial = a malformed datagram is followed by a valid one, two items are queued before a receive, a "
         "cancelled receive with data available, a socket error behind an unread datagram, or confusable / mutated sends.")
 TRUSTED = ["models coq/IO/DgramEndpoint.v and coq/Frame/OneShot.v hand-written from protocol.py, serializers/abc.py and the "
            "datagram endpoints; validated by execution",
@@ -191,6 +206,8 @@ def make_protocol(kind, cfg, impl):
         sep, keep_end, ascii_ = cfg
         return DatagramProtocol(StringLineSerializer(NEWLINE_NAMES[sep], encoding="ascii" if ascii_ else "latin-1",
                                                      keep_end=bool(keep_end)))
+    if kind == 4:
+        return DatagramProtocol(_rec_struct_serializer(cfg[0], bool(cfg[1])))
     name = impl[1]
     if name == b"filebased":
         return DatagramProtocol(_record_serializer())
@@ -199,7 +216,17 @@ def make_protocol(kind, cfg, impl):
         return DatagramProtocol(StringLineSerializer(impl[2].decode(), encoding=impl[3].decode()))
     if name in (b"json", b"jsonl", b"json+conv"):
         from easynetwork.serializers.json import JSONSerializer
-        return DatagramProtocol(JSONSerializer(use_lines=(name == b"jsonl")), _point_converter() if name == b"json+conv" else None)
+        debug = bool(len(impl) > 2 and impl[2])
+        return DatagramProtocol(JSONSerializer(use_lines=(name == b"jsonl"), debug=debug),
+                                _point_converter() if name == b"json+conv" else None)
+    if name in (b"b64-line", b"zlib-line", b"bz2-line"):
+        from easynetwork.serializers.line import StringLineSerializer
+        from easynetwork.serializers.wrapper.base64 import Base64EncoderSerializer
+        from easynetwork.serializers.wrapper.compressor import BZ2CompressorSerializer, ZlibCompressorSerializer
+        inner = StringLineSerializer("LF", encoding="ascii")
+        if name == b"b64-line":
+            return DatagramProtocol(Base64EncoderSerializer(inner, checksum=bool(impl[2])))
+        return DatagramProtocol((ZlibCompressorSerializer if name == b"zlib-line" else BZ2CompressorSerializer)(inner))
     if name == b"struct":
         from easynetwork.serializers.struct import StructSerializer
         return DatagramProtocol(StructSerializer(impl[2].decode()))
@@ -260,6 +287,22 @@ def _record_serializer():
     return RecordSerializer()
 
 
+_REC = None
+
+
+def _rec_cls():
+    global _REC
+    if _REC is None:
+        import collections
+        _REC = collections.namedtuple("Rec", ("name",))
+    return _REC
+
+
+def _rec_struct_serializer(n, strip):
+    from easynetwork.serializers.struct import NamedTupleStructSerializer
+    return NamedTupleStructSerializer(_rec_cls(), {"name": f"{n}s"}, encoding=None, strip_string_trailing_nul_bytes=strip)
+
+
 def canon(p, kind=0) -> bytes:
     """canonical packet: raw bytes for the derived-interface test serializers, the latin-1 bytes of the text for the
     white-box line codec, repr otherwise (a digest when it is very long)"""
@@ -267,6 +310,8 @@ def canon(p, kind=0) -> bytes:
         return bytes(p)
     if kind == 3:
         return p.encode("latin-1")
+    if kind == 4:
+        return bytes(p.name)
     if isinstance(p, (bytearray, memoryview)):
         p = bytes(p)
     r = repr(p).encode()
@@ -281,6 +326,8 @@ def uncanon(kind, b: bytes):
         return bytes(b)
     if kind == 3:
         return b.decode("latin-1")
+    if kind == 4:
+        return _rec_cls()(name=bytes(b))
     return ast.literal_eval(b.decode())
 
 
@@ -359,6 +406,19 @@ def _drain(sock):
 
 def big_datagram(n, token):
     """the content of a large datagram (op 8), regenerated from its size and token; a valid JSON / line payload"""
+    import base64
+    import zlib
+    raw = None
+    if token.startswith((b"deep", b"zdeep", b"bdeep")):
+        raw = b"[" * n                       # nested beyond the JSON decoder's recursion limit (RecursionError)
+    elif token.startswith((b"digits", b"zdigits", b"bdigits")):
+        raw = b"1" * n                       # integer literal beyond the interpreter's int/str limit (ValueError)
+    if raw is not None:
+        if token[:1] == b"z":
+            return zlib.compress(raw)
+        if token[:1] == b"b":
+            return base64.urlsafe_b64encode(raw)
+        return raw
     body = bytes(97 + (i + len(token)) % 26 for i in range(n - 2))
     return b'"' + body + b'"' if token.startswith(b"json") else b"x" + body + b"y"
 
@@ -548,6 +608,11 @@ def _run_async(kind, cfg, ops, impl):
                     for _ in range(settle):
                         await asyncio.sleep(0)
                     out.append([])
+                elif op[0] == 8:
+                    peer_send(big_datagram(op[1], op[2]))
+                    for _ in range(settle):
+                        await asyncio.sleep(0)
+                    out.append([])
                 elif op[0] == 6:
                     out.append([await recv_cancelled()])
                 elif op[0] == 7:
@@ -674,6 +739,8 @@ def _json_value(rng, depth=0):
 
 def _packet(rng, impl):
     name = impl[1]
+    if name in (b"b64-line", b"zlib-line", b"bz2-line"):
+        return "" if rng.random() < 0.4 else "".join(rng.choice("ab =\x00") for _ in range(rng.randint(0, 5)))
     if name == b"line":
         alphabet = "ab z\t" + ("é€" if impl[3] == b"utf-8" else "")
         return "".join(rng.choice(alphabet) for _ in range(rng.randint(0, 8)))
@@ -693,7 +760,8 @@ def _packet(rng, impl):
 SERIALIZERS = (
     [b"line", b"LF", b"ascii"], [b"line", b"CRLF", b"utf-8"], [b"json"], [b"jsonl"], [b"json+conv"],
     [b"struct", b"!hI?"], [b"pickle"], [b"b64-json", 0], [b"b64-json", 1], [b"b64-pickle", 1],
-    [b"zlib-json"], [b"bz2-json"], [b"filebased"],
+    [b"zlib-json"], [b"bz2-json"], [b"filebased"], [b"json", 1], [b"jsonl", 1],
+    [b"b64-line", 0], [b"b64-line", 1], [b"zlib-line"], [b"bz2-line"],
 )
 
 # packets whose serialization raises, per serializer (the failure may come after a partial write: filebased)
@@ -775,13 +843,14 @@ def _mk_case(kind, cfg, ops, impl, tags, feats, bufopt=()):
     arr = [op for op in ops if op[0] == 0]
     flags = [op[3] for op in arr]
     bad_then_good = any(not flags[i] and flags[i + 1] for i in range(len(flags) - 1))
-    clean = [op[:3] if op[0] == 0 else op for op in ops]
+    # a valid datagram carries the packet it is the serialization of: the model answers that packet (round trip)
+    clean = [(op[:3] + [op[4]] if len(op) > 4 else op[:3]) if op[0] == 0 else op for op in ops]
     if kind != 0:
         clean = [op[:2] if op[0] in (0, 1) else op for op in clean]
     feats = set(feats)
     if bad_then_good:
         feats.add("bad-then-good")
-    interesting = {"burst", "bad-then-good", "partial-separator", "send-after-failed-send", "large-datagram", "small-recv-size", "recv-cancelled-with-data", "sock-error-after-unread-datagram",
+    interesting = {"burst", "bad-then-good", "partial-separator", "codec-padding-byte-inside-payload", "decoder-limit-input", "send-after-failed-send", "large-datagram", "small-recv-size", "recv-cancelled-with-data", "sock-error-after-unread-datagram",
                    "send-confusable", "send-mutated"}
     return dict(input=[kind, cfg, clean, impl, endpoint_code(impl), list(bufopt)],
                 tags=tags + sorted(feats) + [f"datagrams{len(arr)}"], nontrivial=bool(feats & interesting))
@@ -837,8 +906,10 @@ def _blackbox_case(rng, impl_ser, endpoint):
     while len(dgrams) < n:
         pkt = _packet(rng, impl)
         valid = isolated_make(0, [], impl, canon(pkt))
+        pkt_of = {}
         if rng.random() < 0.5:
             ds, tag, ok = [valid], "valid", True
+            pkt_of[valid] = canon(pkt)
         else:
             other = isolated_make(0, [], impl, canon(_packet(rng, impl)))
             ds, tag = _malform(rng, valid, other)
@@ -846,7 +917,7 @@ def _blackbox_case(rng, impl_ser, endpoint):
         tags.add(tag)
         for d in ds:
             res = isolated_build(0, [], impl, d)
-            dgrams.append([0, d, res, ok and res[0] == 0])
+            dgrams.append([0, d, res, ok, [pkt_of[d]]] if d in pkt_of else [0, d, res, False])
     dgrams = dgrams[:6]
     sends, sfeats = _sends(rng, impl)
     ops, feats = _schedule(rng, dgrams, sends, endpoint)
@@ -946,6 +1017,58 @@ def _line_cases(rng, thorough):
                                    set(feats) | ({"partial-separator"} if partial else set()))
 
 
+def _struct_ref(n, strip, d):
+    if len(d) != n:
+        return "error"
+    return d.rstrip(b"\0") if strip else d
+
+
+def _struct_cases(rng, thorough):
+    """white-box NamedTupleStructSerializer with one "<n>s" field: every value of length <= n over {a, NUL} sent, every
+    n-byte field over {a, b, NUL} and wrong sizes received"""
+    for n in (3, 4):
+        for strip in (1, 0):
+            cfg = [n, strip]
+            values = [b"".join(t) for k in range(0, n + 1) for t in itertools.product([b"a", b"\0"], repeat=k)]
+            fields = [b"".join(t) for t in itertools.product([b"a", b"b", b"\0"], repeat=n)] + [b"", b"a", b"a" * (n + 1)]
+            rng.shuffle(values)
+            rng.shuffle(fields)
+            gi = 0
+            while values or fields:
+                endpoint = SMALL_ENDPOINTS[gi % 4]
+                gi += 1
+                impl = [endpoint, b"struct-s-whitebox"]
+                group, fields = fields[:4], fields[4:]
+                vs, values = values[:2], values[2:]
+                if endpoint == b"async-udp-client" and async_transport_drops_empty():
+                    pass        # an n-byte field is never empty on the wire
+                dgrams = [[0, d, None, True] for d in group]
+                sends = [[1, v, None] for v in vs]
+                ops, feats = _schedule(rng, dgrams, sends, endpoint)
+                nul = any(b"\0" in v.rstrip(b"\0") for v in vs) or any(b"\0" in d.rstrip(b"\0") for d in group)
+                yield _mk_case(4, cfg, ops, impl, ["struct-s-whitebox", endpoint.decode()],
+                               set(feats) | ({"codec-padding-byte-inside-payload"} if nul else set()))
+
+
+def _limit_cases(rng, thorough):
+    """the decoder-limit inputs of the JSON codec (deeper than the recursion limit; an integer literal longer than the
+    interpreter's int/str limit), debug off and on, bare and under the wrappers: one parse error each, never a crash"""
+    specs = [([b"json"], b""), ([b"json", 1], b""), ([b"jsonl", 1], b""), ([b"zlib-json"], b"z"), ([b"b64-json", 0], b"b")]
+    for ser, pre in specs:
+        for endpoint in (b"sync-endpoint", b"async-endpoint", b"udp-client") + ((b"async-udp-client",) if thorough else ()):
+            impl = [endpoint] + ser
+            ops = []
+            for i, fam in enumerate((b"deep", b"digits")):
+                token = pre + fam + b"-%d" % i
+                n = 20000
+                big = big_datagram(n, token)
+                small = isolated_make(0, [], impl, canon(_packet(rng, impl)))
+                r = isolated_build(0, [], impl, big)
+                ops += [[8, n, token, r, r], [0, small, isolated_build(0, [], impl, small), True], [3], [3]]
+            yield _mk_case(0, [], ops, impl, ["decoder-limit", ser[0].decode() + ("-debug" if len(ser) > 1 and ser[1] == 1 and ser[0] != b"b64-json" else ""), endpoint.decode()],
+                           {"bad-then-good", "decoder-limit-input"})
+
+
 _V6 = None
 
 
@@ -1015,6 +1138,8 @@ def cases(tier, rng, escalate):
         seq = [rng.choice(variants) for _ in range(rng.randint(1, 4))]
         yield _derived_case(kind, cfg, seq, b"sync-endpoint", rng, ["random", f"kind{kind}"], bufopt=[rng.choice([1, 2, 3, 4, 6, 9])])
     yield from _line_cases(rng, thorough)
+    yield from _struct_cases(rng, thorough)
+    yield from _limit_cases(rng, thorough)
     yield from _large_cases(rng, thorough)
     # black-box serializers
     for _ in range(8000 if thorough else 1500):
@@ -1053,6 +1178,18 @@ def oracle(inp):
                 return f"sock-error: the asynchronous socket error was due at this position but recv_packet gave {r!r}"
             return None
         d = item
+        if r == [2]:
+            return f"crash: datagram {d[:40]!r} ({len(d)} bytes) gave RuntimeError instead of a packet or a parse error"
+        if kind == 4:
+            want = _struct_ref(cfg[0], cfg[1], d)
+            if want == "error":
+                if r[0] != 1:
+                    return f"struct: datagram {d!r} has the wrong size but recv_packet gave {r!r}"
+            elif r != [0, want]:
+                return f"struct: field {d!r} holds {want!r} (trailing NULs only are padding) but recv_packet gave {r!r}"
+            return None
+        if kind == 0 and d in sent_as and r != [0, sent_as[d]]:
+            return f"roundtrip: datagram {d[:60]!r} is the serialization of {sent_as[d]!r} but recv_packet gave {r!r}"
         if kind == 3:
             want = _line_strip_ref(cfg[0], cfg[1], cfg[2], d)
             if want == "error":
@@ -1074,8 +1211,11 @@ def oracle(inp):
         return None
 
     bufopt = inp[5] if len(inp) > 5 else []
+    sent_as = {}        # datagram -> the packet it is the serialization of (kind 0 arrivals carrying their packet)
     for op, res in zip(ops, out):
         if op[0] == 0:
+            if kind == 0 and len(op) > 3 and op[3]:
+                sent_as[op[1]] = op[3][0]
             queue.append(op[1][:bufopt[0]] if bufopt else op[1])     # an explicit max_datagram_size is the caller's choice
         elif op[0] == 8:
             queue.append(big_datagram(op[1], op[2]))
@@ -1089,6 +1229,12 @@ def oracle(inp):
                 return f"empty-datagram-dropped: send_packet({op[1]!r}) serializes to b'' and no datagram reached the peer"
             if len(res) != 1 or res[0][0] != 4:
                 return f"send: send_packet produced {len(res)} datagrams ({res!r})"
+            if kind == 4:
+                n = cfg[0]
+                wire = (op[1] + b"\0" * n)[:n]
+                if res[0][1] != wire:
+                    return f"struct: send_packet({op[1]!r}) put {res[0][1]!r} on the wire, expected {wire!r}"
+                continue
             if kind == 3:
                 # the wire must carry the packet's text; the peer's deserialize may strip WHOLE trailing newlines only
                 ref = _line_strip_ref(cfg[0], cfg[1], cfg[2], op[1])
